@@ -55,7 +55,42 @@ def toks_of_text(text):
     return ' '.join(R.tokens(R.norm_tree(r)))
 
 
-def one_run(vec, strategy, jobs, script, mutset, fmt, oracle_kind, V, S):
+GOLDEN = (1, 'bug found\n', 'warn: x\n')
+CMP_OPTS = {
+    'plain': {},
+    'mout': {'match_out': 'bug'},
+    'merr': {'match_err': 'warn'},
+    'iout': {'ignore_out': True},
+    'ierr': {'ignore_err': True, 'match_out': 'found'},
+}
+
+
+def outcome(verdict, toks):
+    """Behaviour of the command model on a candidate: like the golden run if
+    the oracle says so, otherwise it differs in exactly one of exit code,
+    stdout, stderr (chosen by a hash of the tokens) - so that every stream
+    matters for the comparison."""
+    import zlib
+    if verdict:
+        return GOLDEN
+    k = zlib.crc32(toks.encode()) % 3
+    if k == 0:
+        return (0, GOLDEN[1], GOLDEN[2])
+    if k == 1:
+        return (1, 'ok\n', GOLDEN[2])
+    return (1, GOLDEN[1], 'other\n')
+
+
+def documented_accept(out, opts):
+    from vlib.ref import spec_checker as S_
+    io = opts.get('ignore_out', False)
+    ie = opts.get('ignore_err', False)
+    return S_.accept(GOLDEN[0], GOLDEN[1], GOLDEN[2], out[0], out[1], out[2],
+                     io, ie, opts.get('match_out'), opts.get('match_err'))
+
+
+def one_run(vec, strategy, jobs, script, mutset, fmt, oracle_kind, V, S,
+            cmp='plain'):
     import argparse
     import logging
     from ddsmt import (cli, checker, nodeio, options, strategy_ddmin,
@@ -88,6 +123,13 @@ def one_run(vec, strategy, jobs, script, mutset, fmt, oracle_kind, V, S):
         ns.timeout = None
         ns.parser_test = False
         ns.unchecked = False
+        ns.ignore_output = False
+        ns.ignore_out = False
+        ns.ignore_err = False
+        ns.match_out = None
+        ns.match_err = None
+        for k_, v_ in CMP_OPTS[cmp].items():
+            setattr(ns, k_, v_)
         orig = toks_of_text(text)
         if oracle_kind.startswith('hash'):
             oracle = HashClassOracle(d, V, always_accept=[orig],
@@ -101,9 +143,11 @@ def one_run(vec, strategy, jobs, script, mutset, fmt, oracle_kind, V, S):
                 raise AssertionError(f'command line {xcmd!r} {filename!r}')
             t = toks_of_text(open(filename).read())
             v = oracle.verdict(t)
-            ran.append((t, v))
-            return checker.RunInfo(1 if v else 0, 'bug\n' if v else 'ok\n',
-                                   '', 0.01)
+            o = outcome(v, t)
+            # accepted by the documented comparison rule under the configured
+            # options (not merely by the oracle)
+            ran.append((t, documented_accept(o, CMP_OPTS[cmp])))
+            return checker.RunInfo(o[0], o[1], o[2], 0.01)
 
         written = []
         real_write = nodeio.write_smtlib_to_file
@@ -170,16 +214,68 @@ def one_run(vec, strategy, jobs, script, mutset, fmt, oracle_kind, V, S):
         shutil.rmtree(work, ignore_errors=True)
 
 
+def _child_tmpname(k):
+    import threading
+    from ddsmt import tmpfiles
+    names = [tmpfiles.get_tmp_filename()]
+    box = []
+    t = threading.Thread(target=lambda: box.append(
+        tmpfiles.get_tmp_filename()))
+    t.start()
+    t.join()
+    return names + box
+
+
+def run_tmpnames():
+    """Auxiliary (real fork pool): the candidate file is private to each
+    process and thread - the main process, which checks sequentially before
+    the pool is forked, and every worker use different files."""
+    import multiprocessing
+    import time
+    from ddsmt import tmpfiles, options
+    t0 = time.time()
+    SC._namespace('ddmin', 2, 'core', 'out.smt2')
+    options.args().infile = 'in.smt2'
+    tmpfiles.init()
+    main_name = tmpfiles.get_tmp_filename()
+    ctx = multiprocessing.get_context('fork')
+    with ctx.Pool(3) as pool:
+        res = pool.map(_child_tmpname, range(6), chunksize=1)
+    names = [main_name] + [n for r in res for n in r]
+    per_proc = {tuple(r) for r in res}
+    bad = None
+    allnames = [main_name] + [n for r in per_proc for n in r]
+    if len(set(allnames)) != len(allnames):
+        bad = ('two processes/threads of one ddSMT run use the same candidate '
+               f'file: {sorted(set(n for n in allnames if allnames.count(n) > 1))}')
+    if not all(n.endswith('.smt2') for n in names):
+        bad = 'candidate file without the extension of the input file'
+    try:
+        getattr(tmpfiles, '__TMPDIR').cleanup()
+    except Exception:
+        pass
+    return {'status': 'VIOLATED' if bad else 'CONFIRMED',
+            'cex': {'tmpnames': True} if bad else None,
+            'exc': {'type': 'Violation', 'msg': bad} if bad else None,
+            'paths': len(names), 'paths_ok': len(names),
+            'samples': [{'names': sorted(set(names))[:3]}],
+            'solver_checks': 0, 'solver_seconds': 0.0,
+            'wall_s': round(time.time() - t0, 2),
+            'note': 'real fork pool, concrete (auxiliary)'}
+
+
 CONFIGS = [
-    # strategy, jobs, script, mutset, format, oracle
-    ('hybrid', 1, 'a', 'core', 'default', 'first'),
-    ('hybrid', 1, 'a', 'core', 'pretty', 'hash0'),
-    ('hybrid', 2, 'c', 'erase', 'wrap', 'hash0'),
-    ('ddmin', 1, 'b', 'mix', 'pretty', 'hash1'),
-    ('ddmin', 2, 'c', 'erase', 'default', 'first'),
-    ('hierarchical', 1, 'b', 'mix', 'wrap', 'hash0'),
-    ('hierarchical', 2, 'a', 'core', 'default', 'hash1'),
-    ('hierarchical', 1, 'd', 'mix', 'pretty', 'first'),
+    # strategy, jobs, script, mutset, format, oracle, comparison options
+    ('hybrid', 1, 'a', 'core', 'default', 'first', 'plain'),
+    ('hybrid', 1, 'a', 'core', 'pretty', 'hash0', 'mout'),
+    ('hybrid', 2, 'c', 'erase', 'wrap', 'hash0', 'merr'),
+    ('ddmin', 1, 'b', 'mix', 'pretty', 'hash1', 'iout'),
+    ('ddmin', 2, 'c', 'erase', 'default', 'first', 'mout'),
+    ('hierarchical', 1, 'b', 'mix', 'wrap', 'hash0', 'ierr'),
+    ('hierarchical', 2, 'a', 'core', 'default', 'hash1', 'merr'),
+    ('hierarchical', 1, 'd', 'mix', 'pretty', 'first', 'mout'),
+    ('hierarchical', 1, 'a', 'core', 'default', 'hash0', 'iout'),
+    ('ddmin', 1, 'a', 'core', 'wrap', 'hash0', 'ierr'),
 ]
 
 
@@ -188,12 +284,12 @@ def bounds(tier):
 
 
 def make_run(cfg, tier):
-    st, j, sc, ms, fmt, oracle = cfg
+    st, j, sc, ms, fmt, oracle, cmp = cfg
     b = bounds(tier)
     S = b['S'] if j > 1 else 0
 
     def once(vec):
-        return one_run(vec, st, j, sc, ms, fmt, oracle, b['V'], S)
+        return one_run(vec, st, j, sc, ms, fmt, oracle, b['V'], S, cmp)
 
     def run():
         from vlib.engine import explore_choices
@@ -204,25 +300,31 @@ def make_run(cfg, tier):
 
 def partitions(tier):
     parts = []
+    parts.append({'name': 'tmpnames', 'kind': 'native', 'run': run_tmpnames,
+                  'budget_s': 120})
     for cfg in CONFIGS:
-        st, j, sc, ms, fmt, oracle = cfg
-        parts.append({'name': f'{st}_j{j}_{sc}_{ms}_{fmt}_{oracle}',
+        st, j, sc, ms, fmt, oracle, cmp = cfg
+        parts.append({'name': f'{st}_j{j}_{sc}_{ms}_{fmt}_{oracle}_{cmp}',
                       'kind': 'choices', 'run': make_run(cfg, tier),
                       'budget_s': 170 if tier == 'quick' else 850,
                       'bounds': {'strategy': st, 'jobs': j, 'script': sc,
                                  'mutators': ms, 'format': fmt,
-                                 'oracle': oracle, **bounds(tier)}})
+                                 'oracle': oracle, 'comparison': cmp,
+                                 **bounds(tier)}})
     return parts
 
 
 def replay(part, cex):
     import os as _os
     tier = _os.environ.get('VERIF_TIER_REPLAY', 'quick')
-    st, j, sc, ms, fmt, oracle = part.split('_')
+    if part == 'tmpnames':
+        r = run_tmpnames()
+        return r['exc']['msg'] if r['exc'] else None
+    st, j, sc, ms, fmt, oracle, cmp = part.split('_')
     b = bounds(tier)
     try:
         r, _ = one_run(cex['bits'], st, int(j[1:]), sc, ms, fmt, oracle,
-                       b['V'], b['S'] if int(j[1:]) > 1 else 0)
+                       b['V'], b['S'] if int(j[1:]) > 1 else 0, cmp)
     except Exception as e:
         return f'{type(e).__name__}: {e}'
     return None if r in (None, 'skip') else r
